@@ -1,4 +1,5 @@
 import HL.Model.Completion
+import HL.Generated.Expect.Completion
 import HL.Spec.CompletionSpec
 import HL.Lemmas.Text
 /-! Helper lemmas for HL.Props.C16. -/
@@ -27,15 +28,15 @@ theorem fuzzyLoop_sublist (text pat : Str) (i : Nat) (prev : Option Char) (last 
 
 /-- One matching step never lowers the score by less than the base score. -/
 theorem step_score_ge (i : Nat) (prev : Option Char) (last : Int) (bonus score : Nat) :
-    score + 10 ≤ (if i = 0 ∨ prev = some ':' then
-        (if last = (i : Int) - 1 then (bonus + 5, score + 10 + (bonus + 5)) else (0, score + 10)).2 + 15
-       else (if last = (i : Int) - 1 then (bonus + 5, score + 10 + (bonus + 5)) else (0, score + 10)).2) := by
+    score + scoreBase ≤ (if i = 0 ∨ prev = some ':' then
+        (if last = (i : Int) - 1 then (bonus + scoreConsecutive, score + scoreBase + (bonus + scoreConsecutive)) else (0, score + scoreBase)).2 + scoreBoundary
+       else (if last = (i : Int) - 1 then (bonus + scoreConsecutive, score + scoreBase + (bonus + scoreConsecutive)) else (0, score + scoreBase)).2) := by
   split <;> split <;> simp only [] <;> omega
 
 theorem fuzzyLoop_prefix (pat text : Str) (i : Nat) (prev : Option Char) (last : Int) (bonus score : Nat)
     (h : pat <+: text) :
     (fuzzyLoop text pat i prev last bonus score).2 = [] ∧
-    score + 10 * pat.length ≤ (fuzzyLoop text pat i prev last bonus score).1 := by
+    score + scoreBase * pat.length ≤ (fuzzyLoop text pat i prev last bonus score).1 := by
   induction pat generalizing text i prev last bonus score with
   | nil => cases text <;> simp [fuzzyLoop]
   | cons p ps ih =>
@@ -43,13 +44,13 @@ theorem fuzzyLoop_prefix (pat text : Str) (i : Nat) (prev : Option Char) (last :
     simp only [List.cons_append, fuzzyLoop, if_true]
     have hs := step_score_ge i prev last bonus score
     generalize (if i = 0 ∨ prev = some ':' then
-        (if last = (i : Int) - 1 then (bonus + 5, score + 10 + (bonus + 5)) else (0, score + 10)).2 + 15
-       else (if last = (i : Int) - 1 then (bonus + 5, score + 10 + (bonus + 5)) else (0, score + 10)).2) = s' at hs ⊢
-    generalize (if last = (i : Int) - 1 then (bonus + 5, score + 10 + (bonus + 5)) else (0, score + 10)).1 = b'
+        (if last = (i : Int) - 1 then (bonus + scoreConsecutive, score + scoreBase + (bonus + scoreConsecutive)) else (0, score + scoreBase)).2 + scoreBoundary
+       else (if last = (i : Int) - 1 then (bonus + scoreConsecutive, score + scoreBase + (bonus + scoreConsecutive)) else (0, score + scoreBase)).2) = s' at hs ⊢
+    generalize (if last = (i : Int) - 1 then (bonus + scoreConsecutive, score + scoreBase + (bonus + scoreConsecutive)) else (0, score + scoreBase)).1 = b'
     have := ih (ps ++ r) (i + 1) (some p) i b' s' (List.prefix_append _ _)
     refine ⟨this.1, ?_⟩
     have h2 := this.2
-    simp only [List.length_cons]
+    simp only [List.length_cons, Nat.mul_succ]
     omega
 
 theorem fuzzyScore_pos_sublist (lower : Char → Char) (text pat : Str)
@@ -69,7 +70,7 @@ theorem fuzzyScore_pos_of_prefix (lower : Char → Char) (text pat : Str)
     (h : (pat.map lower) <+: (text.map lower)) : 0 < fuzzyScore lower text pat := by
   unfold fuzzyScore
   split
-  · decide
+  · exact HL.Generated.Expect.fuzzy_empty_pos
   · next hp =>
     have := fuzzyLoop_prefix (pat.map lower) (text.map lower) 0 none (-1) 0 0 h
     simp only []
@@ -78,6 +79,8 @@ theorem fuzzyScore_pos_of_prefix (lower : Char → Char) (text pat : Str)
       cases pat with
       | nil => exact absurd rfl hp
       | cons _ _ => simp
+    have hb : 0 < scoreBase := HL.Generated.Expect.fuzzy_base_pos
+    have := Nat.mul_pos hb hl
     omega
 
 /-! ### Segments -/
